@@ -82,6 +82,10 @@ func zzRx13OneRecord() {
 	zzsymAssume((rec[0]&0x08 != 0) == (sbit == 1))
 	zzsymAssume((rec[0]&0x04 != 0) == (lbit == 1))
 	addr0 := c.rAddr
+	// the per-epoch "highest authenticated record number" that later records are reconstructed against
+	// (arbitrary values: records have been received before) and the replay windows' existence
+	common.RemoteSequenceNumber = []uint64{0, 0, zzsymU64("highest2"), zzsymU64("highest3"), zzsymU64("highest4")}
+	highest0 := append([]uint64{}, common.RemoteSequenceNumber...)
 	outcome, err := c.handleIncomingPacket(context.Background(), rec, &net.UDPAddr{Port: 2}, nil)
 	// what is authenticated is the header AS IT WAS ON THE WIRE: every header handed to the AEAD carries the
 	// wire's C/S/L bits, epoch bits, CID bytes, sequence-number bits and (if present) length field
@@ -119,6 +123,13 @@ func zzRx13OneRecord() {
 		zzsymAssert(outcome.responseAlert == nil, "drop_no_alert")
 		zzsymAssert(c.rAddr == addr0, "drop_keeps_peer_address")
 		zzsymAssert(!outcome.containsHandshake && outcome.receivedACK == nil, "drop_no_effect")
+		// "discarded without effect": the reconstruction anchor of no epoch moved, so the genuine records that
+		// follow are still expanded to their own numbers (a forged 16-bit number half a window ahead would
+		// otherwise push the next genuine records into the wrong 2^16 block and lose them)
+		zzsymAssert(len(common.RemoteSequenceNumber) == len(highest0), "drop_keeps_sequence_anchor_table")
+		for i := range highest0 {
+			zzsymAssert(common.RemoteSequenceNumber[i] == highest0[i], "drop_keeps_highest_authenticated_record_number")
+		}
 	}
 	if future && rec[0]&3 == 0 {
 		zzsymCover("unauthorised_epoch_not_used")
